@@ -87,3 +87,39 @@ void h_roundtrip(void)
    CANARY();
 }
 #endif
+
+#if defined(INST_loadRoundtripRow) || defined(INST_loadRoundtripCol)
+/* LEMMA "setting a valid basis and reading it back returns it unchanged, up to marking variables with equal bounds as
+ * fixed", for one row / column: v -> descriptor status -> loadDesc's repair -> VarStatus.  v is one of the five statuses
+ * and admissible for the bounds (NONBASIC_OK = what isBasisValid checks); bounds and objective are not NaN.
+ *   BASIC stays BASIC; a nonbasic status on equal bounds comes back FIXED; ON_LOWER / ON_UPPER come back unchanged;
+ *   ZERO comes back ZERO on a free variable.
+ * DEVIATION that the contract records rather than hides: ZERO on a variable with a finite bound (which isBasisValid
+ * accepts) does NOT come back: loadDesc moves it to a finite bound (ON_LOWER / ON_UPPER). */
+int w_loadRoundtrip(int i, int stat, double* lo, double* hi, double* obj, int n, int* rowstat, int* colstat, int* mid0, int* mid1)
+__CPROVER_requires(0 < n && n <= CAP && __CPROVER_is_fresh(lo, n * sizeof(double)) && __CPROVER_is_fresh(hi, n * sizeof(double)) && __CPROVER_is_fresh(obj, n * sizeof(double)))
+__CPROVER_requires(__CPROVER_is_fresh(rowstat, n * sizeof(int)) && __CPROVER_is_fresh(colstat, n * sizeof(int)))
+__CPROVER_requires(__CPROVER_is_fresh(mid0, sizeof(int)) && __CPROVER_is_fresh(mid1, sizeof(int)))
+__CPROVER_requires(0 <= i && i < n && NOT_NAN(lo[i]) && NOT_NAN(hi[i]) && NOT_NAN(obj[i]))
+__CPROVER_requires(VALID_VAR5(stat) && (stat == BASIC || NONBASIC_OK(stat, lo[i], hi[i])) && g_throw_allowed == 0)
+__CPROVER_assigns(*mid0, *mid1, __CPROVER_object_whole(rowstat), __CPROVER_object_whole(colstat))
+__CPROVER_ensures(stat == BASIC ==> __CPROVER_return_value == BASIC)
+__CPROVER_ensures(stat != BASIC ==> __CPROVER_return_value != BASIC)
+__CPROVER_ensures((stat != BASIC && lo[i] == hi[i]) ==> __CPROVER_return_value == FIXED)
+__CPROVER_ensures(((stat == ON_LOWER || stat == ON_UPPER) && lo[i] != hi[i]) ==> __CPROVER_return_value == stat)
+__CPROVER_ensures((stat == ZERO && INF_LO(lo[i]) && INF_UP(hi[i])) ==> __CPROVER_return_value == ZERO)
+/* the deviation */
+__CPROVER_ensures((stat == ZERO && lo[i] != hi[i] && !(INF_LO(lo[i]) && INF_UP(hi[i]))) ==>
+                  ((__CPROVER_return_value == ON_LOWER && FIN_LO(lo[i])) || (__CPROVER_return_value == ON_UPPER && FIN_UP(hi[i]))))
+/* whatever comes back is admissible for the bounds again */
+__CPROVER_ensures(__CPROVER_return_value == BASIC || NONBASIC_OK(__CPROVER_return_value, lo[i], hi[i]))
+__CPROVER_ensures(IS_DUAL(*mid1) == (stat == BASIC))
+;
+void h_loadRoundtrip(void)
+{
+   int i, stat, n; double* lo; double* hi; double* obj; int* rowstat; int* colstat; int* mid0; int* mid1;
+   g_throw_allowed = nondet_int();
+   w_loadRoundtrip(i, stat, lo, hi, obj, n, rowstat, colstat, mid0, mid1);
+   CANARY();
+}
+#endif
